@@ -629,6 +629,32 @@ func c15SlowCallbackReq(slow, req string) *sched.Scenario {
 		}}
 }
 
+// c15RequestDuringSlowTeardown: the allocation's lifetime (1 s) runs out while a CreatePermission for a new peer
+// arrives (sent 1 ns before); the teardown is slow because the operator's OnPermissionDeleted callback takes 2 s.
+// Whatever the request manages to do in the meantime, created and deleted callbacks still pair up and nothing is
+// left on the allocation that has ended.
+func c15RequestDuringSlowTeardown() *sched.Scenario {
+	return &sched.Scenario{Name: "c15-request-during-a-teardown-with-a-slow-deleted-callback", Bound: bound(), FreeBound: 3, Opt: opt,
+		Body: func(s *vsched.Sched) (func() []string, func()) {
+			w := sched.NewBW(sched.BCfg{Perm: 10 * time.Second, Chan: 10 * time.Second, CB: func(kind string) {
+				if kind == "perm-" {
+					vsched.IdleSleep(2 * time.Second)
+				}
+			}})
+			c := w.NewClient("c1")
+			vsched.Go("client", func() {
+				c.Do(wire.Allocate, func(b *wire.B) { udp(b); b.U32(wire.AttrLifetime, 1) })
+				c.Do(wire.CreatePermission, peer("A"))
+				vsched.IdleSleep(time.Second - time.Nanosecond)
+				vsched.Mark()
+				c.Fire(wire.CreatePermission, peer("B"))
+				vsched.IdleSleep(30 * time.Second)
+			})
+
+			return func() []string { return balance(w, s) }, func() { _ = w.Srv.Close() }
+		}}
+}
+
 // c15EqualDeadlines: allocation lifetime == permission timeout == channel
 // timeout: all timers fire at the same instant, in every order and interleaving.
 func c15EqualDeadlines() *sched.Scenario {
@@ -1126,5 +1152,5 @@ func TestC05Sched(t *testing.T) { run(t, "C05", c05StreamRelayVsResponse()) }
 func TestC04Sched(t *testing.T) { run(t, "C04", c04TwoConns(), c06Reconnect()) }
 func TestC16Sched(t *testing.T) { run(t, "C16", c16TwoBinds(), c16BindVsTimeout(), c16FullDuplex()) }
 func TestC15Sched(t *testing.T) {
-	run(t, "C15", c15SlowCallback("alloc"), c15SlowCallback("perm"), c15SlowCallback("chan"), c15SlowCallbackReq("perm", "chanbind"), c15EqualDeadlines(), c15SlowDial("other"), c15SlowDial("own"))
+	run(t, "C15", c15SlowCallback("alloc"), c15SlowCallback("perm"), c15SlowCallback("chan"), c15SlowCallbackReq("perm", "chanbind"), c15EqualDeadlines(), c15SlowDial("other"), c15SlowDial("own"), c15RequestDuringSlowTeardown())
 }
